@@ -65,6 +65,7 @@ static void post_create(XSock *x) {
     }
     std::string t = tp;
     x->is_tcp_based = t == "tcp" || t == "tls" || t == "btcp" || t == "btls";
+    x->is_tls = t == "tls" || t == "btls";
     if (x->nonblocking) {
         ApiScope a("xcm_fd", x, true);
         x->xfd = xcm_fd(x->s);
@@ -281,6 +282,7 @@ int x_send(XSock *x, const void *buf, size_t len) {
             x->led_from_app_bytes += (int64_t)len;
         }
         x->finish_ok_since_send = false;
+        x->last_send_errno = 0;
     } else {
         if (taken > x->ghost.size() && judged(x) && e != ECONNRESET && e != EPIPE && e != ETIMEDOUT)
             // (known btls defect: a refused call leaves an *incomplete* record behind, so its bytes can only show up after a
@@ -477,6 +479,9 @@ int x_close(XSock *x) {
         cur()->close_send_truncated = false;
         rc = xcm_close(x->s);
         x->close_truncated = cur()->close_send_truncated;
+        // a record of a refused (EAGAIN/EINTR) send still pending inside the TLS library blocks the close_notify just as a full
+        // socket buffer does: the close goes out as a bare FIN (same known finding as the truncated alert)
+        if (x->is_tls && !x->is_server && (x->last_send_errno == EAGAIN || x->last_send_errno == EINTR)) x->close_truncated = true;
     }
     G->logf("xcm_close(%s) = %d", x->label.c_str(), rc);
     x->closed = true;
